@@ -83,7 +83,7 @@ fn o_two(c: &TwoSpellings, st: &mut Stats) -> Result<(), String> {
     Ok(())
 }
 
-fn o_token(s: &String, st: &mut Stats) -> Result<(), String> {
+pub fn o_token(s: &String, st: &mut Stats) -> Result<(), String> {
     match strict(s) {
         Strict::Accept(obs) => {
             st.class("strict-accept");
